@@ -267,7 +267,7 @@ func Spec() *core.Spec {
 		Rule: "every call carries a unique id that a scripted in-memory server echoes, so each returned response identifies the request it answers (no ambiguity to search over). " +
 			"Directed sequences on one client: each call under a cancellation plan {none, before send, at the hooked point after loading the tx channel, at the hooked point between send and recv with the response held back and released late, " +
 			"while the server holds the response, 2 ms deadline}, always followed by further calls; stress: 2..32 goroutines sharing one client, 6 calls each with seeded plans (race detector on). " +
-			"distinct = distinct call histories (ids, plans, outcomes in completion order)",
+			"a plan where the server writes a server-to-client request ahead of the response; distinct = distinct call histories (ids, plans, outcomes in completion order)",
 		Assumptions: []string{"cancellation instants are placed by the verif hooks client.send.loaded and client.roundtrip.sent, which sit where the scheduler may preempt anyway"},
 		Required:    []string{"calls", "calls_returning_response", "calls_returning_error", "cancel.before-send", "cancel.at-send-loaded", "cancel.between-send-and-recv", "cancel.while-server-holds", "hook.client.roundtrip.sent", "stress_rounds", "server_pushes", "calls.server-push-before-response"},
 		Shards:      func(string) int { return 8 },
